@@ -16,7 +16,8 @@ def handlers : List (List Sexp → Option Sexp) :=
     Driver.prHandle,
     Driver.settingsHandle,
     Driver.wordPathsHandle,
-    Driver.sugarHandle ]
+    Driver.sugarHandle,
+    Driver.infixHandle ]
 
 def dispatch (line : String) : String :=
   match Sexp.parseAll line with
